@@ -11,10 +11,10 @@ From Verif Require Import lib.Quote model.ExSyntax model.ExLexer model.ExParser 
 Import ListNotations.
 Open Scope N_scope.
 
-(* "Printing is a fixed point after one round": norm t is the tree that re-parsing the printed text yields
-   (context-reference names lower-cased, number literals re-rendered from their decimal value, text literals
-   re-quoted with the same value, everything else — Parentheses nodes included — unchanged); it prints like t,
-   and normalising again changes nothing.  For every tree. *)
+(* "Printing is a fixed point after one round": norm t (context-reference names lower-cased, number literals
+   re-rendered from their decimal value, text literals re-quoted with the same value, everything else — Parentheses
+   nodes included — unchanged) prints like t, and normalising again changes nothing.  For every tree.  That norm t
+   IS what re-parsing the printed form yields is the content of c11_reparse_tokens / c11_roundtrip_partial below. *)
 Theorem c11_print_fixpoint : forall (lower : N -> N) (printable : N -> bool) e,
   (forall c, lower (lower c) = lower c) ->
   print lower printable (norm lower e) = print lower printable e
@@ -40,13 +40,12 @@ Print Assumptions c11_reparse_tokens.
 (* Second sentence, identity transformation that reports "unchanged" (refactor.Template then keeps the original
    expression text): for EVERY NUL-free template — any body text, e-mail addresses, "@@", expressions with syntax
    errors, unterminated "@(" — and every allowed-top-level list (nil included) the output IS the template: the
-   scanner with SetUnescapeBody(false) is lossless.  (inside = false only for text literals with raw byte escapes,
-   which lie outside the code-point model of strconv.Unquote.) *)
+   scanner with SetUnescapeBody(false) is lossless.  (errs counts the expressions that do not parse; inside only
+   records whether some text literal has raw byte escapes — the output is the template in every case.) *)
 Theorem c11_identity_rewrite_verbatim : forall (isln : N -> bool) (lower : N -> N) (printable : N -> bool) tops s,
   isln 0 = false -> nulfree s ->
-  exists out errs inside,
-    refactor_template isln lower printable (fun _ => None) tops s = Ok (out, errs, inside)
-    /\ (inside = true -> out = s).
+  exists errs inside,
+    refactor_template isln lower printable (fun _ => None) tops s = Ok (s, errs, inside).
 Proof. exact identity_verbatim_stmt. Qed.
 Print Assumptions c11_identity_rewrite_verbatim.
 
